@@ -1,7 +1,7 @@
 import os, random, re, json, subprocess
 from tools import vlib, cli
 
-RULE = ("the real binary with --num-threads 1 vs {2,4,16,64} on file sets mixing clean, warning-only, erroring, unparsable, missing, "
+RULE = ("the real binary with --num-threads 1 vs {2,4,16,64} on file sets mixing clean, warning-only, erroring, unparsable, missing, nested (2-4 blocks deep), "
         "large (60+ diagnostics, > 8 KiB of output) and tiny files, quiet and json2 styles; every run also records the hook event trace "
         "(job_start/add/lock/emit/unlock/job_end/totals), which the Lean pool model replays: a trace is rejected if a write happens outside "
         "a lock span, two spans overlap, a file's lint diagnostics use more than one span, or the summary differs from the sum of all "
@@ -11,17 +11,29 @@ RULE = ("the real binary with --num-threads 1 vs {2,4,16,64} on file sets mixing
 BIG = "".join(f"local big_{i} = {i}\n" for i in range(120))
 
 
+def nested(depth):
+    """`depth` nested blocks: the recursive visitors need stack in proportion — a worker whose stack differs from the
+    sequential run's would crash (or not) where the other does not"""
+    s = ""
+    for k in range(depth):
+        s += "  " * k + ("if cond%d then\n" % k if k % 2 == 0 else "while cond%d do\n" % k)
+    s += "  " * depth + "local unused_inner = 1\n"
+    for k in reversed(range(depth)):
+        s += "  " * k + "end\n"
+    return s
+
+
 def make_set(ctx, name, rng, n_files):
     d = os.path.join(ctx.workdir, name)
     os.makedirs(d, exist_ok=True)
     files = []
-    kinds = ["clean", "warn", "warn2", "err", "err2", "mixed", "parse", "parse2", "empty", "bigwarn", "BIG", "missing", "multiline", "crlf"]
+    kinds = ["clean", "warn", "warn2", "err", "err2", "mixed", "parse", "parse2", "empty", "bigwarn", "BIG", "missing", "multiline", "crlf", "nest2", "nest3", "nest4"]
     for i in range(n_files):
         k = rng.choice(kinds)
         fname = f"f{i:03d}_{k}.lua"
         if k != "missing":
             with open(os.path.join(d, fname), "w", newline="") as fh:
-                fh.write(BIG if k == "BIG" else cli.FILE_KINDS[k])
+                fh.write(BIG if k == "BIG" else nested(int(k[4:])) if k.startswith("nest") else cli.FILE_KINDS[k])
         files.append(fname)
     cli.write_config(d, name="cfg.toml")
     return d, files
